@@ -126,8 +126,10 @@ class Fixture:
             "val": [vtok(float(x), i + 1) for i, x in enumerate(s.observations)],
             "mask": [bool(x) for x in s.observation_mask],
             "sids": [int(x) for x in s.sample_ids], "tids": s.treatment_ids.astype(int).tolist(), "pids": [int(x) for x in s.plate_ids],
-            "smap": [[stok.get(str(a), 99), int(b)] for a, b in zip(*s.sample_mapping)],
-            "tmap": [[ttok.get(str(a), 99), dtok(float(b)), int(c)] for a, b, c in zip(*s.treatment_mapping)],
+            # a mapping is a set of (name -> id) entries: listed in a canonical order, so that two tables with the same entries are equal
+            # whatever order they store them in (duplicated entries stay visible: nothing is de-duplicated)
+            "smap": sorted([stok.get(str(a), 99), int(b)] for a, b in zip(*s.sample_mapping)),
+            "tmap": sorted([ttok.get(str(a), 99), dtok(float(b)), int(c)] for a, b, c in zip(*s.treatment_mapping)),
             # (plate name, plate id) pairs as the rows carry them; Screen.plate_mapping itself is not an observable of these properties
             "pmap": sorted({(ptok.get(str(a), 99), int(b)) for a, b in zip(s.plate_names, s.plate_ids)}),
             "nut": int(sp.n_unique_treatments), "nus": int(sp.n_unique_samples),
